@@ -64,6 +64,10 @@ METHODS = [
     ("err", "write", "err", False, False), ("err", "write_line", "err", True, False),
     ("sec", "write_line", "sec", True, False), ("sec", "write", "sec", False, False),
     ("sec", "overwrite", "sec", True, False),
+    # clikit's BufferedIO, read back with fetch_* and emptied with clear_* after every operation
+    ("buf", "write", "buf", False, False), ("buf", "write_line", "buf", True, False),
+    ("buf", "error_line", "buferr", True, False), ("buf", "write_raw", "buf", False, True),
+    ("buf", "error", "buferr", False, False),
 ]
 
 
@@ -188,7 +192,7 @@ def _gen_ops(w, tags, depth, budget, allow_fault_free=True):
                     tree = tree + [["text", "x"]]  # e.g. a newline inside a trailing tag
             ops.append(["write", m, tree])
         elif k == "scope":
-            ops.append(["scope", w.pick(["io", "io", "out", "err", "sec"]), w.pick(["set", "inc"]),
+            ops.append(["scope", w.pick(["io", "io", "out", "err", "sec", "buf"]), w.pick(["set", "inc"]),
                         w.pick([0, 1, 2, 3, 4, 7]), _gen_ops(w, tags, depth + 1, budget)])
         elif k == "probe":
             spec = _style_spec(w)
@@ -223,7 +227,13 @@ def gen(S, tier):
         k0 = idx0 % 12800
         extra.append(["tbl", [COLORS[k0 % 10], COLORS[(k0 // 10) % 10], [a for j, a in enumerate(ATTRS) if (k0 // 100) >> j & 1]]])
     cfg = {"extra_styles": extra, "plain_kind": c.pick(["nonansi_stream", "plain_formatter"]),
-           "default_set": c.chance(0.7)}
+           "default_set": c.chance(0.7),
+           # how a Style object is built: only the enabling setters; every setter with an explicit
+           # boolean; or every attribute switched on first and the unwanted ones off again
+           "style_build": c.weighted([("enable", 6), ("explicit", 2), ("on_off", 1)]),
+           # another style set of the process (same tags with other styles, plus tags this
+           # formatter does not know), created before or after the formatter under test
+           "decoy": c.weighted([(None, 6), ("before", 2), ("after", 2)])}
     tags = [t for t, _ in extra] + (list(DEFAULT_TAGS) if cfg["default_set"] else ["info", "comment", "error", "question"])
     w = S("workload")
     ops = _gen_ops(w, tags, 0, [30])
@@ -296,6 +306,9 @@ class _Boom(Exception):
     pass
 
 
+_BUILD = ["enable"]
+
+
 def _mk_style(tag, spec):
     from clikit.api.formatter import Style
     fg, bg, attrs = spec
@@ -304,9 +317,33 @@ def _mk_style(tag, spec):
         s.fg(fg)
     if bg:
         s.bg(bg)
-    for a in attrs:
-        getattr(s, a)()
+    if _BUILD[0] == "explicit":
+        for a in ATTRS:
+            getattr(s, a)(a in attrs)
+    elif _BUILD[0] == "on_off":
+        for a in ATTRS:
+            getattr(s, a)()
+        for a in ATTRS:
+            if a not in attrs:
+                getattr(s, a)(False)
+    else:
+        for a in attrs:
+            getattr(s, a)()
     return s
+
+
+def _decoy_set(cfg):
+    """A second, unrelated style set: must not influence the formatter under test."""
+    from clikit.api.formatter import Style, StyleSet
+    from clikit.formatter import DefaultStyleSet
+    ss = DefaultStyleSet() if not cfg["default_set"] else StyleSet()
+    for tag, spec in cfg["extra_styles"]:
+        fg, bg, attrs = spec
+        other = [bg or "magenta", fg or "white", [a for a in ATTRS if a not in attrs][:2]]
+        ss.add(_mk_style(tag, other))
+    for tag in ("foo", "unknown", "br", "n0", "p0", "tbl"):
+        ss.add(Style(tag).fg("magenta").bold())
+    return ss
 
 
 def _codes(spec):
@@ -361,36 +398,53 @@ class _Twin(object):
             "sec": SimOutputStream(name + ".sec", log, ansi=ansi_stream),
         }
 
+        from clikit.io import BufferedIO
+        self.decoys = []
+
         def style_set():
+            if cfg.get("decoy") == "before":
+                self.decoys.append(_decoy_set(cfg))
             ss = DefaultStyleSet() if cfg["default_set"] else StyleSet()
             for tag, spec in cfg["extra_styles"]:
                 ss.add(_mk_style(tag, spec))
+            if cfg.get("decoy") == "after":
+                self.decoys.append(_decoy_set(cfg))
             return ss
 
-        def fmt():
+        def fmt(forced=False):
             if not decorated and cfg["plain_kind"] == "plain_formatter":
                 return PlainFormatter(style_set())
-            return AnsiFormatter(style_set())
+            return AnsiFormatter(style_set(), forced) if forced else AnsiFormatter(style_set())
 
         self.fm = fmt()  # one formatter shared by out and err, as the default IO factory does
         self.io = IO(Input(SimInputStream(log, [])), Output(self.streams["out"], self.fm),
                      Output(self.streams["err"], self.fm))
         self.sec_parent = Output(self.streams["sec"], fmt())
         self.sec = self.sec_parent.section()
-        self.targets = {"io": self.io, "out": self.io.output, "err": self.io.error_output, "sec": self.sec}
+        # BufferedIO never reports a terminal: the decorated twin forces decoration in the formatter
+        self.buf = BufferedIO("", fmt(forced=decorated))
+        self.targets = {"io": self.io, "out": self.io.output, "err": self.io.error_output, "sec": self.sec, "buf": self.buf}
         self.records = []  # (path, kind, expected, got, info)
 
     def mark(self):
         return {k: len(s.writes) for k, s in self.streams.items()}
 
     def since(self, mark, stream):
+        if stream == "buf":
+            got = self.buf.fetch_output()
+            self.buf.clear_output()
+            return got
+        if stream == "buferr":
+            got = self.buf.fetch_error()
+            self.buf.clear_error()
+            return got
         return "".join(d for _, d in self.streams[stream].writes[mark[stream]:])
 
 
 def _run_twin(sc, tw, res, count_probes):
     """Interprets the operation tree on one twin.  The reference model (indentation stack,
     expected text) is computed here, identically for both twins."""
-    indent = {"out": 0, "err": 0, "sec": 0}
+    indent = {"out": 0, "err": 0, "sec": 0, "buf": 0, "buferr": 0}
     registered = dict()  # tag -> spec, styles the harness knows exactly
     if sc["config"]["default_set"]:
         for tag, (fg, bg, at) in DEFAULT_TAGS.items():
@@ -430,6 +484,10 @@ def _run_twin(sc, tw, res, count_probes):
                         stats["writes"] += 1
                         if target == "sec":
                             res.probe("section_ansi" if tw.decorated else "section_plain")
+                        if target == "buf" and tw.decorated:
+                            res.probe("buffered_io_cycle")
+                            if got == "":
+                                res.probe("buffered_io_empty_rendering")
                         if count_probes:
                             if "\n" in vis:
                                 res.probe("multiline_message")
@@ -444,7 +502,7 @@ def _run_twin(sc, tw, res, count_probes):
             elif k == "scope":
                 _, tgt, mode, n, body = op
                 obj = tw.targets[tgt]
-                keys = ["out", "err"] if tgt == "io" else [tgt]
+                keys = ["out", "err"] if tgt == "io" else ["buf", "buferr"] if tgt == "buf" else [tgt]
                 saved = {x: indent[x] for x in keys}
                 cm = obj.indent(n) if mode == "set" else obj.increment_indent(n)
                 for x in keys:
@@ -536,10 +594,12 @@ def _run_twin(sc, tw, res, count_probes):
     except (_Boom, IOError):
         pass
     # after everything: every indentation must be back to 0 - probe with a final line on each output
-    for stream, tgt, method in (("out", "out", "write_line"), ("err", "err", "write_line"), ("sec", "sec", "write_line")):
-        tw.streams[stream].fail_at = set()
-        tw.streams[stream].close_after = None
-        tw.streams[stream]._closed = False  # the harness reopens the pipe for the final indentation probe
+    for stream, tgt, method in (("out", "out", "write_line"), ("err", "err", "write_line"), ("sec", "sec", "write_line"),
+                                ("buf", "buf", "write_line"), ("buferr", "buf", "error_line")):
+        if stream in tw.streams:
+            tw.streams[stream].fail_at = set()
+            tw.streams[stream].close_after = None
+            tw.streams[stream]._closed = False  # the harness reopens the pipe for the final indentation probe
         mk = tw.mark()
         getattr(tw.targets[tgt], method)("END")
         tw.records.append((("end", stream), "write", ("END", 0, True, False, tgt), tw.since(mk, stream), (tgt, method, 0, 0, 0, False)))
@@ -574,6 +634,11 @@ def _matches_model(text, vis, ind, is_line):
 def execute(sc):
     res = Result()
     log = EventLog()
+    _BUILD[0] = sc["config"].get("style_build", "enable")
+    if _BUILD[0] != "enable":
+        res.probe("style_built_with_explicit_off")
+    if sc["config"].get("decoy"):
+        res.probe("other_style_set_in_process")
     A = _Twin(sc, True, log)
     P = _Twin(sc, False, log)
     try:
